@@ -6,10 +6,13 @@ package main
 
 import (
 	"context"
+	"errors"
 	"fmt"
+	"io"
 	"math/rand"
 	"os"
 	"path/filepath"
+	"strings"
 	"sync/atomic"
 	"time"
 
@@ -17,6 +20,7 @@ import (
 	oras "oras.land/oras-go/v2"
 	"oras.land/oras-go/v2/content"
 	"oras.land/oras-go/v2/content/memory"
+	"oras.land/oras-go/v2/errdef"
 )
 
 func init() {
@@ -326,6 +330,87 @@ func runCopy(mode string, seed int64, tier string, sc *Script) map[string]any {
 		}
 		sc.Extra["exhaustive_single_fault_plans"] = plans
 	}
+	// C01: what Copy does to the root (hooks, push, the one tagging call and its reference),
+	// for destinations that tag and destinations that push by reference, root present or not
+	if mode == "C01" {
+		reps := 40
+		if tier == "thorough" {
+			reps = 800
+		}
+		for i := 0; i < reps; i++ {
+			u := GenDAG(rng, GenCfg{Blobs: 1 + rng.Intn(3), Manifests: 1 + rng.Intn(4), Subjects: true, Indexes: true})
+			root := len(u.Nodes) - 1
+			for k := len(u.Nodes) - 1; k >= 0; k-- {
+				if u.Nodes[k].Kind.IsManifest() {
+					root = k
+					break
+				}
+			}
+			refPusher, present := i%2 == 1, (i/2)%2 == 1
+			dstRef := []string{"", "dst-tag"}[(i/4)%2]
+			sc.Case("copy-rootflow")
+			sc.NonTrivial()
+			src := memory.New()
+			all := make([]int, len(u.Nodes))
+			for j := range all {
+				all[j] = j
+			}
+			pushAll(ctx, src, u, all)
+			if err := src.Tag(ctx, u.Nodes[root].Desc, "srcref"); err != nil {
+				panic(err)
+			}
+			dstT := memory.New()
+			if present {
+				pushAll(ctx, dstT, u, downClosure(u, []int{root}))
+			}
+			r := newCopyRun(u, seed+int64(i))
+			it := &instrTarget{instrDst: instrDst{inner: dstT, r: r}, t: dstT}
+			var dst oras.Target = it
+			if refPusher {
+				dst = &instrRefTarget{instrTarget: it}
+			}
+			opts := oras.CopyOptions{CopyGraphOptions: r.options(1 + rng.Intn(3))}
+			got, err := oras.Copy(ctx, src, "srcref", dst, dstRef, opts)
+			if err != nil {
+				panic(fmt.Sprintf("Copy: %v", err))
+			}
+			want := dstRef
+			if want == "" {
+				want = "srcref"
+			}
+			var flow []string
+			for _, e := range r.events {
+				var name string
+				var n int
+				fmt.Sscanf(e, "%s %d", &name, &n)
+				if n != root {
+					continue
+				}
+				switch name {
+				case "existsT", "existsF":
+					flow = append(flow, "exists")
+				case "pushOk":
+					flow = append(flow, "push")
+				case "skipped", "preCopy", "postCopy":
+					flow = append(flow, name)
+				}
+				if strings.HasPrefix(name, "tag:") || strings.HasPrefix(name, "pushRef:") {
+					flow = append(flow, name)
+				}
+			}
+			sc.Op(strings.Join(flow, ","), "cp rootflow refpusher=%d present=%d ref=%s", btoi(refPusher), btoi(present), want)
+			ans := "unresolved"
+			if d, rerr := dstT.Resolve(ctx, want); rerr == nil {
+				ans = fmt.Sprint(u.IDOf(d))
+			}
+			if u.IDOf(got) != root {
+				ans = "returned-other-root"
+			}
+			sc.Op(ans, "cp tagged root=%d", root)
+			runs++
+			sc.Count(fmt.Sprintf("rootflow:refpusher=%v,present=%v", refPusher, present))
+		}
+	}
 	// C04: the same accounting over ExtendedCopyGraph with several roots (a subject with
 	// several referrers, each with blobs of its own): one shared budget of Concurrency
 	if mode == "C04" {
@@ -416,4 +501,21 @@ type instrGraphSrc struct {
 
 func (s *instrGraphSrc) Predecessors(ctx context.Context, d ocispec.Descriptor) ([]ocispec.Descriptor, error) {
 	return s.g.Predecessors(ctx, d)
+}
+
+// instrRefTarget makes the instrumented target a registry.ReferencePusher.
+type instrRefTarget struct {
+	*instrTarget
+}
+
+func (s *instrRefTarget) PushReference(ctx context.Context, d ocispec.Descriptor, rd io.Reader, ref string) error {
+	n := s.r.u.IDOf(d)
+	if err := s.instrDst.inner.Push(ctx, d, rd); err != nil && !errors.Is(err, errdef.ErrAlreadyExists) {
+		return err
+	}
+	if err := s.t.Tag(ctx, d, ref); err != nil {
+		return err
+	}
+	s.r.log("pushRef:"+ref, n)
+	return nil
 }
